@@ -42,3 +42,22 @@ let parse_pkt (arg : string) : PcapModel.pkt =
   | _ -> failwith ("pkt: " ^ arg)
 
 let rec firstn_ml n l = if n <= 0 then [] else match l with [] -> [] | x :: t -> x :: firstn_ml (n - 1) t
+
+(* ---- Gallina printers for the extraction cross-check inside Coq (see c18.ml), shared by C14pcap / C15pcap *)
+let coq_pkt (p : PcapModel.pkt) =
+  Printf.sprintf "{| p_sec := %s; p_nsec := %s; p_caplen := %s; p_len := %s; p_data := %s |}" (coq_z p.PcapModel.p_sec)
+    (coq_z p.PcapModel.p_nsec) (coq_z p.PcapModel.p_caplen) (coq_z p.PcapModel.p_len) (coq_zlist p.PcapModel.p_data)
+let coq_rpkt (k : PcapModel.rpkt) =
+  Printf.sprintf "{| k_sec := %s; k_nsec := %s; k_caplen := %s; k_len := %s; k_data := %s |}" (coq_z k.PcapModel.k_sec)
+    (coq_z k.PcapModel.k_nsec) (coq_z k.PcapModel.k_caplen) (coq_z k.PcapModel.k_len) (coq_zlist k.PcapModel.k_data)
+let coq_rstate (r : PcapModel.rstate) =
+  Printf.sprintf "{| r_be := %s; r_factor := %s; r_snaplen := %s; r_lt := %s; r_pcap := %s |}" (coq_bool r.PcapModel.r_be)
+    (coq_z r.PcapModel.r_factor) (coq_z r.PcapModel.r_snaplen) (coq_z r.PcapModel.r_lt) (coq_z r.PcapModel.r_pcap)
+let coq_sstate (r : PcapModel.sstate) =
+  Printf.sprintf "{| s_lt := %s; s_pcap := %s |}" (coq_z r.PcapModel.s_lt) (coq_z r.PcapModel.s_pcap)
+let coq_chunk = function PcapModel.Chunk b -> "Chunk " ^ coq_zlist b | PcapModel.Fail -> "Fail"
+(* the 4-tuple returned by pcap_run / snoop_run *)
+let coq_run_result (fh : 'a -> string) ((((h, al), rs), fin) : (('a Base.outcome * BinNums.coq_Z list) * (PcapModel.rpkt Base.outcome * BinNums.coq_Z list) list) * bool) =
+  Printf.sprintf "(%s, %s,\n     %s, %s)" (coq_outcome fh h) (coq_zlist al)
+    ("[" ^ String.concat ";\n      " (Stdlib.List.map (coq_pair (coq_outcome coq_rpkt) coq_zlist) rs) ^ "]") (coq_bool fin)
+let pcap_coq_header = "From GP Require Import Base PcapModel.\n"
